@@ -8,10 +8,10 @@ T=demo_${lc}_${vlc}
 cd "$WT" || exit 2
 git checkout -q -- . ; rm -f rust/ommx/tests/demo_*.rs
 mkdir -p rust/ommx/tests; cp "$D/demo.rs" rust/ommx/tests/$T.rs
-res_clean=$(cargo test -p ommx --offline --test $T 2>&1 | grep -E "^test result|error(\[|:)" | head -3)
+res_clean=$(cargo test -p ommx --offline --test $T 2>&1 | grep -E "^test result|^error" | head -3)
 git apply "$D/patch.diff" || { echo "$ID/$V: PATCH DOES NOT APPLY"; exit 1; }
-res_mut=$(cargo test -p ommx --offline --test $T 2>&1 | grep -E "^test result|error(\[|:)" | head -3)
-res_suite=$(cargo test -p ommx --lib --offline 2>&1 | grep -E "^test result|error(\[|:)" | head -3)
+res_mut=$(cargo test -p ommx --offline --test $T 2>&1 | grep -E "^test result|^error" | head -3)
+res_suite=$(cargo test -p ommx --lib --offline 2>&1 | grep -E "^test result|^error" | head -3)
 git checkout -q -- . ; rm -f rust/ommx/tests/$T.rs
 echo "$ID/$V demo(clean): $res_clean"
 echo "$ID/$V demo(mutant): $res_mut"
